@@ -469,7 +469,7 @@ def run(ctx: Ctx) -> int:
     params.sort(key=canon)
     rng = random.Random(ctx.seed * 1000003 + 10)
     ctx.extra["combinations_from_tlc"] = len(params)
-    params = rng.sample(params, min(len(params), 240 if quick else 4000))     # a seeded sample of the universe is run
+    params = rng.sample(params, min(len(params), 200 if quick else 4000))     # a seeded sample of the universe is run
     cases, skipped = [], 0
     for i, p in enumerate(params):
         c = case_from_tlc(p, EMB_ORDER[i % len(EMB_ORDER)])
@@ -487,7 +487,7 @@ def run(ctx: Ctx) -> int:
         sols = rng.sample(sols, min(len(sols), 900))
     cases += [extract_case(r, EMB_ORDER[i % len(EMB_ORDER)], 4) for i, r in enumerate(sols)]
     ctx.extra["extract_replays"] = len(sols)
-    nrnd = 90 if quick else 1500
+    nrnd = 70 if quick else 1500
     cases += [random_case(rng, EMB_ORDER[i % len(EMB_ORDER)]) for i in range(nrnd)]
     ctx.extra["cases_random"] = nrnd
     decide(ctx, cases)
